@@ -69,6 +69,24 @@ HISTORY = {
     "C02-last-line-across-traces": "MISSED at first: every program started with 'x = 0' -> raw seeds whose last "
                                    "executed line is the first line of the next call",
     "C17-strict-greater-test-executions": "caught outright",
+    "C34-toggle-pass-duplicates": "caught outright",
+    "C08-try-clause-lines-merged": "caught outright",
+    "C20-composite-flag-name": "caught outright",
+    "C14-comparator-cached-per-instance": "caught outright",
+    "C28-hom-finish-order": "first run ended as a HARNESS error (AssertionError out of mutation_count was not "
+                            "caught) -> exceptions from counting are violations; now clean violations",
+    "C35-report-isclose-covered": "MISSED at first: no float predicate missed by a hair -> corpus/floats.py with "
+                                  "hand-made near-miss test cases in the pool",
+    "C01-nan-guard-before-subtraction": "caught outright",
+    "C19-stale-protected-positions": "MISSED at first (ported onto the repaired postprocess.py): no unasserted "
+                                     "removable statement in front of asserted redundant ones -> tripled tests with "
+                                     "the first copy's assertions dropped",
+    "C26-edge-early-return-keeps-distance": "caught outright",
+    "C07-relink-skipped-self-edge": "caught outright",
+    "C24-nested-class-qualname": "MISSED at first: no value of a nested class -> corpus/nested.py (which also exposed "
+                                 "a genuine keyword-rewriting defect of the unchanged parser, fixed in /repo)",
+    "C33-sending-end-flag-never-reset": "MISSED at first: the 2-crash runs never reached a second crash (search time "
+                                        "used up) -> generous time budget, after-import x2, vacuity guard",
 }
 
 
